@@ -50,6 +50,21 @@ theorem mem_eraseP_root (l : List Cluster) (rt : Nat) (hnd : (l.map (·.root)).N
         · exact Or.inl rfl
         · exact Or.inr ⟨h1, h2⟩
 
+/-- records with equal roots in a dict are the same record -/
+theorem eq_of_root_eq : ∀ (l : List Cluster), (l.map (·.root)).Nodup → ∀ a b, a ∈ l → b ∈ l →
+    a.root = b.root → a = b := by
+  intro l
+  induction l with
+  | nil => intro _ a b ha; simp at ha
+  | cons x l ih =>
+    intro hnd a b ha hb hab
+    rw [List.map_cons, List.nodup_cons] at hnd
+    rcases List.mem_cons.mp ha with ha | ha <;> rcases List.mem_cons.mp hb with hb | hb
+    · rw [ha, hb]
+    · exact absurd (List.mem_map.mpr ⟨b, hb, by rw [← hab, ha]⟩) hnd.1
+    · exact absurd (List.mem_map.mpr ⟨a, ha, by rw [hab, hb]⟩) hnd.1
+    · exact ih hnd.2 a b ha hb hab
+
 /-- the dummy record `Clustering_Tree(s, self, odd=False)` -/
 def dummy (s : Nat) : Cluster := ⟨s, 1, false, [hashS s]⟩
 
